@@ -19,8 +19,14 @@ Reading aid.
   that module's nodes must report.
 
 What is proved about the model for *all* trees, paths, registries: the theorems below.  What is not
-proved as one end-to-end theorem: that the forest `processAll` returns is `Built` (the composition
-through `toEntry`, `augmentLoop`, the deviation pass).  The three constructors of `Built` are exactly
+proved in this file as one end-to-end theorem: that the forest `processAll` returns is `Built` (the
+composition through `toEntry`, `augmentLoop`, the deviation pass).  Props/C12Bridge.lean proves it
+for `Built'` — `Built` plus the stamp-free steps the augment loop really takes (an error recorded on
+a root, `Find` creating an absent rpc input / output, storing back an unchanged tree) — with the
+provenance theorem carried over (`namespace_placedBy_prime`): `preDev_builtPrime` (the forest the
+deviations are applied to, for every input) and `processAll_builtPrime` (the final forest of an
+error-free run when no loaded module has a deviation statement).  The deviation pass with an
+applying deviation is still not threaded.  The three constructors of `Built` are exactly
 the stamp-relevant steps of `processAll` — `augmentStep_is_graft` shows a successful augment step is
 the `graft` constructor's forest with the augmenting tree's owner namespace, `uses_no_stamp` and
 `conversion_ops_no_stamp` show that every tree-building operation `toEntry` applies (add a child,
@@ -381,9 +387,11 @@ its tree's module and every grafted node to the module of the augment.  Proved: 
 (`conversion_forest_built` in Props/C12Conv.lean: the converted forest is `Built.init` and every
 pending augment meets the premise of `graft`), each augment step (`augmentStep_is_graft`), the
 `FixChoice` step (constructor `fix` with `fixChoice_preserves`), and the theorem that gives the
-namespaces of any `Built` forest (`namespace_placedBy`).  Missing: threading these through
+namespaces of any `Built` forest (`namespace_placedBy`).  Missing in this file: threading these through
 `augmentLoop`/`augmentPass` (swap-remove bookkeeping, `Find` creating an absent rpc input/output,
-error recording on the root) to obtain `Built` for the final forest.  The claim itself is checked
+error recording on the root) to obtain `Built` for the final forest — done in Props/C12Bridge.lean
+for `Built'` (`Built` with exactly those extra steps as constructors): `processAll_builtPrime` is this
+statement with `Built'` for `Built`.  The claim itself is checked
 by the correspondence runner (Go-side provenance oracle on generated schemas). -/
 def processAll_built_statement : Prop :=
   ∀ (reg : Registry) (opts : Opts) (plug : Plug),
